@@ -37,6 +37,9 @@ type SimNet struct {
 	Segment int
 	// OnLink is called (without locks held) when a link is created
 	OnLink func(l *Link)
+	// OnDeliver is called (without locks held) after bytes were handed to the reading end of a
+	// link: dir 0 = dialler to acceptor
+	OnDeliver func(l *Link, dir int, n int)
 	// Tap, if set, sees every chunk written by an endpoint (side 0 = dialer)
 	Tap func(l *Link, side int, b []byte)
 
@@ -259,6 +262,12 @@ func (lk *Link) deliver(d int, spawnSeq uint64) {
 			burst -= k
 			lk.mu.Unlock()
 			wakeup(rd.rch)
+			sn.mu.Lock()
+			od := sn.OnDeliver
+			sn.mu.Unlock()
+			if od != nil {
+				od(lk, d, k)
+			}
 		}
 	}
 }
@@ -562,4 +571,11 @@ func StartNetNode(e *Env, sn *SimNet, o NetNodeOptions) gen.Node {
 			o.Mod(no)
 		}
 	})
+}
+
+// SetOnDeliver installs (or removes) the delivery callback.
+func (sn *SimNet) SetOnDeliver(f func(l *Link, dir int, n int)) {
+	sn.mu.Lock()
+	sn.OnDeliver = f
+	sn.mu.Unlock()
 }
